@@ -96,6 +96,20 @@ GUARDS_MS_BUILD = ["guards_sites_ms_build", "guards_context_ms_build", "guards_t
                    "guards_tie_step_event", "guard_ms_foreign_meaning", "guard_ms_no_foreign_meaning",
                    "guard_ms_replaced_meaning", "guards_tie_apply_params", "guard_ms_growing_meaning",
                    "guard_ms_infinite_meaning", "guards_tie_finalise_growth"]
+# translator tie of the handle management (C17), the command line (C19) and the loop structure behind the step counts (C20):
+# Generated/GuardsHandles.lean, GuardsCli.lean, GuardsCost.lean (DESIGN §4.1)
+GUARDS_HANDLES = ["handles_tie_context_enter", "handles_tie_context_exit", "handles_context_manager_open",
+                  "handles_tie_load_asdict", "handles_tie_loads_asdict", "handles_tie_load", "handles_tie_loads",
+                  "handles_tie_dump", "handles_tie_dumps", "handles_tie_dump_all", "handles_tie_load_all_first_next",
+                  "handles_tie_load_all", "handles_term_load_asdict", "handles_term_loads_asdict", "handles_term_load",
+                  "handles_term_loads", "handles_term_load_all", "handles_term_dump", "handles_term_dumps",
+                  "handles_term_dump_all", "handles_signatures"]
+GUARDS_CLI = ["cli_tie_parse_call", "cli_tie_ms_call", "cli_dump_defaults", "cli_tie_main", "cli_tie_exclusive", "cli_dispatch",
+              "cli_parse_arguments", "cli_ms_arguments", "cli_look_ahead_break_meaning", "cli_tie_look_loop", "cli_look_ahead",
+              "cli_term_parse_call", "cli_term_ms_call", "cli_term_main"]
+GUARDS_COST = ["cost_loops_migration_matrices", "cost_loops_check_migration_rates", "cost_loops_in_generations",
+               "cost_loops_asdict", "cost_loops_asdict_simplified", "cost_tie_check_migration_rates",
+               "cost_tie_in_generations", "cost_tie_asdict_loops", "cost_tie_dump", "cost_nests"]
 G_RESOLVE = T("TablesGuards", GUARDS_RESOLVE) + T("TablesGuardsMatrices", GUARDS_MATRICES)
 EXTRA = {
     "C01": T("TablesResolve", RESOLVE_TABLES) + T("TablesConst", ["tables_rel_tol"]) + G_RESOLVE,
@@ -114,7 +128,9 @@ EXTRA = {
     "C14": T("TablesResolve", EVENT_TABLES) + T("TablesGuardsViews", GUARDS_VIEWS),
     "C15": T("TablesFacts", ["fact_rename_demes_copies_first"]) + T("TablesGuardsRename", GUARDS_RENAME),
     "C18": T("TablesFacts", ["fact_fromdict_copies_first", "fact_builder_resolve_passes_data", "fact_fromdict_copy_is_unaliased", "fact_deepcopy_unaliased_shape", "fact_builder_resolve_only_passes_data"]),
-    "C19": T("TablesMs", ["tables_cli_parse_flags", "tables_cli_parse_tests"]),
+    "C19": T("TablesMs", ["tables_cli_parse_flags", "tables_cli_parse_tests"]) + T("TablesGuardsCli", GUARDS_CLI),
+    "C17": T("TablesGuardsHandles", GUARDS_HANDLES),
+    "C20": T("TablesGuardsCost", GUARDS_COST),
 }
 # theorems of other properties that a property's level rests on
 BORROW = {"C03": [("C01", "resolve_valid"), ("C06", "resolve_asdict")], "C01": [("C08", "C08.fromMs_valid_all")],
